@@ -488,6 +488,10 @@ func getPartitionNodesUtilJSON(partition *scheduler.PartitionContext) *dao.Parti
 			if absValue, ok := absUsedCapacity.Resources[resourceType]; ok {
 				v := float64(absValue)
 				idx = int(math.Dim(math.Ceil(v/10), 1))
+				// a node can be used above its capacity (capacity lowered by the RM, allocations reported by the RM)
+				if idx > 9 {
+					idx = 9
+				}
 			}
 
 			// create resource bucket if not exist
